@@ -59,6 +59,12 @@ CLAIMED = {
          "against the exact rational), so the jump at the switch is below that; closed-form cell exact (SeriesLemmas); consumer corollary: SO3Dcm "
          "exp within 1e-14 entrywise on the Taylor cell. Doubles-vs-40-digit-mpmath grid search supports the 1e-9 claim and finiteness of AD derivatives.",
          "DESIGN.md §2 C06", TECH_T),
+ "C08": ("proof", "Lean 4: Lib/Flow defines the closed-form flow (p,v,R)(t) of p'=v, v'=Ra-g e3, R'=R[w]x and proves with HasDerivAt that it "
+         "satisfies the three differential equations for every t with the right initial values; Props/C08 proves that the regenerated "
+         "strapdown_ins_propagate returns, for EVERY input, that flow form with the code's series coefficient values (core identities), and on the "
+         "closed-form cell (|w dt|^2 >= 4 eps, any dt of either sign) exactly the flow at t = dt with the quaternion norm preserved; dt = 0 is the "
+         "identity. Uniqueness of the ODE solution, the semigroup law as a theorem and Taylor cells: numeric search only (named in evidence).",
+         "DESIGN.md §2 C08", TECH_T),
 }
 checks = []
 for pid, (cat, text, ref, tech) in CLAIMED.items():
